@@ -10,10 +10,18 @@ CHECKS = {
          EXPL + "Injection makes each step's decision a pure function the oracle predicts exactly, including u = 0, 1 ulp, exp(ratio)+-1 ulp, exact ties, +-inf/NaN log-values and all state/float type combinations; finite kernels measure A(x,y) of the real code to 2^-53.",
          "Decision compared only where the stated grouping, the alternative association and an f64 evaluation agree (else counted ambiguous); trusts the xoshiro crafting (self-tested).",
          "DESIGN.md §5 C01"),
+ "C02": ("proptest HMC steps (targets, step sizes incl. unstable, L 0..64, batches, three precision combos, histories with rejections) traced through the verif hook and compared with an independent f64 velocity-Verlet + Metropolis reference; metamorphic row-independence (poison rows, bitwise) and time-reversal checks with injected momenta/uniforms",
+         EXPL + "The hook exposes (or injects) the momenta and uniforms each step consumed, so the proposal and the accept decision of every row become predictable; tolerances are derived from the measured sensitivity of the reference trajectory.",
+         "Closed-form gradients of the harness targets are the trusted base; ill-conditioned (chaotic) rows are checked structurally only (old-or-proposed bitwise, decision).",
+         "DESIGN.md §5 C02"),
  "C05": ("proptest histories of single-chain Gibbs steps with a recording Conditional, order-agnostic sweep model; exact one-step kernel by enumerating scripted conditional outcomes on small joint tables (pi P = pi)",
          EXPL + "The recording conditional sees every call (index, given state) the library makes; the kernel section turns 'leaves the joint invariant' into a matrix identity checked to 1e-12.",
          "Scan order is not fixed by the statement: any permutation accepted.",
          "DESIGN.md §5 C05"),
+ "C09": ("proptest histories of run() calls on user-defined counting chains (model = counter) under varying rayon pool sizes; twin-sampler differential checks for MH/Gibbs (continuation, burn-in suffix, manual stepping); HMC rows vs traced positions with injected randomness; NUTS rows vs transition trace, prefix consistency, multi-chain runner vs stand-alone chains",
+         EXPL + "Counter chains make every entry of the returned array predictable exactly (chain id and transition count), for all (n_collect, n_discard) incl. 0 and for sequences of calls.",
+         "HMC continuation is compared under injected momenta/uniforms so it is independent of the generator in use.",
+         "DESIGN.md §5 C09"),
  "C11": ("proptest sample arrays (structure generated, bulk from seeded PRNG) vs independent f64 split-R-hat reference; metamorphic relations (affine, permutation, cross-parameter bitwise, separation monotone/unbounded); NaN/summary fuzzing of basic_stats and RunStats",
          EXPL + "Covers odd lengths, the 100-row switch, multimodal/trending/constant chains, NaN summaries of every length 1..256.",
          "Within-half variance divisor (n or n-1) not fixed by the statement: both accepted; |loc|/scale <= 100; relative tolerance 1e-4*(1+|loc|/scale/10) calibrated on the pinned tree.",
